@@ -406,6 +406,22 @@ struct BigHandler : public Http::Handler {
             for (size_t pos = 0; pos < n; pos += 65536) { size_t k = std::min<size_t>(65536, n - pos); stream.write(all.data() + pos, (std::streamsize)k); stream << Http::flush; }
             stream << Http::ends;
             g_stream_handler_done++;
+        } else if (req.resource() == "/slowstream") {
+            // a streamed response that takes its time: one big chunk (the flush would-blocks, the rest is parked), then 120 chunks of 200 bytes
+            // 10 ms apart, each flushed - the client starts reading while the handler is still at it, so one of these flushes, not a
+            // writable event, completes what was parked
+            size_t n = (size_t)atol(req.query().get("n").value_or("100000").c_str());
+            unsigned w = (unsigned)atol(req.query().get("w").value_or("1").c_str());
+            { lv::Interpose& I = lv::ip(); std::lock_guard<std::mutex> g(I.m); I.fds[response.peer()->fd()]; }
+            { std::lock_guard<std::mutex> g(g_m); g_peers[peer_port(response.peer())].fd = response.peer()->fd(); }
+            std::string all = tagged(w, n); size_t first = n - 120 * 200;
+            auto stream = response.stream(Http::Code::Ok);
+            try {
+                stream.write(all.data(), (std::streamsize)first); stream << Http::flush;
+                for (int k = 0; k < 120; k++) { lv::msleep(10); stream.write(all.data() + first + (size_t)k * 200, 200); stream << Http::flush; }
+                stream << Http::ends;
+            } catch (const std::exception&) { }
+            g_stream_handler_done++;
         } else if (req.resource() == "/bigfile") {
             // a file response (sendfile): the file holds the tagged stream
             { lv::Interpose& I = lv::ip(); std::lock_guard<std::mutex> g(I.m); I.fds[response.peer()->fd()]; }
@@ -431,7 +447,7 @@ static void run_c07(long cases) {
         int when = r.range(0, 2);   // other connections issue their request: 0 during the block, 1 before and during, 2 during, repeatedly
         // 0 fixed response, 1 streamed response flushed per chunk, 2 fixed response + second request from the blocked peer while the worker is busy,
         // 3 file response (sendfile), 4 fixed response + the blocked peer sends the first part of its next request during the stall
-        int variant = (int)((n + g_opts.shard) % 5);
+        int variant = (int)((n + g_opts.shard) % 6);   // 5 streamed response resumed by a later flush of its own handler (the client starts reading while the handler is still flushing)
         double stall = 0.2 + r.below(10) * 0.1;
         std::string wt = Json().num("i", idx).str("phase", "c07").num("big_bytes", (long long)big).num("extra_writes", extra).num("others", nOthers).num("when", when).num("stall_s_x10", (long long)(stall * 10)).done();
         set_case(idx, wt);
@@ -448,6 +464,27 @@ static void run_c07(long cases) {
             return m.complete && m.status == 200 && m.body == "pong:" + path;
         };
         if (when == 1) for (auto& o : others) if (!ping(*o, "/before", 5 * lf, nullptr)) key = "c07:harness:other-connection-not-served-before-block";
+        long attempts = 0; double worst = 0;
+        if (variant == 5) {
+            big = std::min<size_t>(big, 10u << 20);
+            a.send_all("GET /slowstream?n=" + std::to_string(big) + "&w=77 HTTP/1.1\r\nHost: x\r\n\r\n");
+            int sfd5 = -1;
+            wait_for([&] { std::lock_guard<std::mutex> g(g_m); auto it = g_peers.find(a.localPort); if (it == g_peers.end() || it->second.fd < 0) return false; sfd5 = it->second.fd; return true; }, 5 * lf);
+            wait_for([&] { lv::Interpose& I = lv::ip(); std::lock_guard<std::mutex> g(I.m); auto it = I.fds.find(sfd5); return it != I.fds.end() && it->second.eagain > 0; }, 3 * lf);
+            lv::msleep(300);
+            std::string buf; lv::HttpMsg m; double deadline = lv::now() + 20 * lf + big / 2e6;
+            for (;;) { m = lv::parse_http(buf, 0, true); if (m.complete || !m.error.empty() || lv::now() > deadline) break; bool eof = false; if (!a.read_some(buf, 200, 1 << 30, &eof)) break; }
+            if (!m.complete) key = "c07:blocked-peer-not-completed-after-release";
+            else if (m.body != tagged(77, big)) key = "c07:blocked-peer-body-corrupt";
+            wait_for([&] { return g_stream_handler_done.load() > 0; }, 10 * lf); g_stream_handler_done = 0;
+            // the worker has to be alive and attentive afterwards: nothing is pending for A any more, the others are answered, and it does not spin
+            long calls0; { lv::Interpose& I = lv::ip(); std::lock_guard<std::mutex> g(I.m); calls0 = I.fds[sfd5].calls; }
+            for (int rd = 0; rd < 2 && key.empty(); rd++) for (auto& o : others) { double lat = 0; if (!ping(*o, "/after" + std::to_string(rd), 5.0 * lf, &lat)) { key = "c07:other-connection-starved:after-a-streamed-response-resumed-by-its-own-flush"; break; } worst = std::max(worst, lat); }
+            { lv::Interpose& I = lv::ip(); std::lock_guard<std::mutex> g(I.m); attempts = I.fds[sfd5].calls - calls0; }
+            if (key.empty() && attempts > 50) key = "c07:busy-wait-on-blocked-peer";
+            count("streamed_responses_resumed_while_the_handler_is_flushing");
+        }
+        if (variant != 5) {
         // A requests the big response and does not read
         std::string bigFile;
         int chain = (variant == 0 && r.chance(1, 2)) ? 1 : 0;
@@ -464,12 +501,12 @@ static void run_c07(long cases) {
         long eagainBefore, callsBefore; { lv::Interpose& I = lv::ip(); std::lock_guard<std::mutex> g(I.m); eagainBefore = I.fds[sfd].eagain; callsBefore = I.fds[sfd].calls; }
         double t0 = lv::now();
         // while A is blocked the others must be answered
-        double worst = 0; int rounds = when == 2 ? 3 : 1;
+        int rounds = when == 2 ? 3 : 1;
         for (int rd = 0; rd < rounds && key.empty(); rd++)
             for (auto& o : others) { double lat = 0; if (!ping(*o, "/during" + std::to_string(rd), 5.0 * lf, &lat)) { key = "c07:other-connection-starved"; break; } worst = std::max(worst, lat); }
         double remain = stall - (lv::now() - t0); if (remain > 0) lv::msleep((int)(remain * 1000));
         long eagainAfter, callsAfter; { lv::Interpose& I = lv::ip(); std::lock_guard<std::mutex> g(I.m); eagainAfter = I.fds[sfd].eagain; callsAfter = I.fds[sfd].calls; }
-        long attempts = callsAfter - callsBefore;
+        attempts = callsAfter - callsBefore;
         g_counts["max_write_attempts_while_blocked"] = std::max(g_counts["max_write_attempts_while_blocked"], attempts);
         // correct code: at most one attempt per writable edge; A never drains, so no more than a handful
         if (key.empty() && attempts > 50) { key = "c07:busy-wait-on-blocked-peer"; wt = Json().num("i", idx).str("phase", "c07").num("write_attempts_while_blocked", attempts).num("would_block_results", eagainAfter - eagainBefore).num("stall_ms", (long long)(stall * 1000)).done(); }
@@ -509,6 +546,8 @@ static void run_c07(long cases) {
             }
         }
         if (slowThread.joinable()) slowThread.join();
+        if (!bigFile.empty()) unlink(bigFile.c_str());
+        }
         g_evals++;
         if (!key.empty()) violation(key, key.substr(4) + " [variant " + std::to_string(variant) + "] (worst latency of other connections " + std::to_string(worst) + " s)", wt);
         g_distinct.add(std::to_string(variant) + "|" + std::to_string(big >> 20) + "|" + std::to_string(extra) + "|" + std::to_string(nOthers) + "|" + std::to_string(when) + "|" + std::to_string((int)(stall * 10)));
@@ -516,7 +555,6 @@ static void run_c07(long cases) {
         g_counts["worst_other_latency_ms"] = std::max<long>(g_counts["worst_other_latency_ms"], (long)(worst * 1000));
         if (g_samples_left > 0) { g_samples_left--; sample(Json().num("big_bytes", (long long)big).num("others", nOthers).num("write_attempts_while_blocked", attempts).num("worst_other_latency_ms", (long long)(worst * 1000)).done()); }
         a.close_now(); others.clear();
-        if (!bigFile.empty()) unlink(bigFile.c_str());
         ep.shutdown();
         { std::lock_guard<std::mutex> g(g_m); g_peers.clear(); }
     }
